@@ -48,6 +48,7 @@ func (s *SSTableManager) reflectCompactionResult(m *proto.CompactionMetadata) er
 		// this is another important step in the recovery process, we need to ensure the ordering is preserved in case of crashes and
 		// thus replace the very first written SSTable in the path set. This creates a couple of "holes" in the numbering schema of
 		// the SSTables, but we guarantee that the compaction is in the right place.
+		verifPoint("compaction.reflect.inputsRemoved")
 		err := os.Rename(filepath.Join(s.basePath, m.WritePath), filepath.Join(s.basePath, m.ReplacementPath))
 		if err != nil {
 			return err
